@@ -1,5 +1,6 @@
 import Driver.Ops.Run
 import Driver.Ops.Balance
+import Driver.Ops.Scale
 /-! Line-protocol driver of the model: one JSON case per input line, one JSON answer per line.
     To add an op: write `Driver/Ops/<Name>.lean`, import it here, add one line to `opTable`
     (or to `outputTable` for a new output kind of op `run`). -/
@@ -8,12 +9,14 @@ open Lean Tackler Codec
 /-- output kinds of op `run` -/
 def outputTable : List (String × Ops.OutputFn) := [
   ("txns", Ops.outTxns),
-  ("balance", Ops.outBalance)
+  ("balance", Ops.outBalance),
+  ("baltxt", Ops.outBalanceTxt)
 ]
 
 /-- ops -/
 def opTable : List (String × (Json → R Json)) := [
-  ("run", Ops.opRun outputTable)
+  ("run", Ops.opRun outputTable),
+  ("fmt", Ops.opFmt)
 ]
 
 def dispatch (j : Json) : R Json := do
